@@ -520,14 +520,16 @@ class HostConnection(object):
         log.debug("Replacing connection (%s) to %s", id(connection), self.host)
         try:
             conn = self._session.cluster.connection_factory(self.host.endpoint, on_orphaned_stream_released=self.on_orphaned_stream_released)
-            if self._keyspace:
-                conn.set_keyspace_blocking(self._keyspace)
-            self._connection = conn
-            # a keyspace switch may have been applied to the old connection while
-            # this one was being set up
-            keyspace = self._keyspace
-            if keyspace and conn.keyspace != keyspace:
-                conn.set_keyspace_blocking(keyspace)
+            while True:
+                keyspace = self._keyspace
+                if keyspace and conn.keyspace != keyspace:
+                    conn.set_keyspace_blocking(keyspace)
+                # a keyspace switch may have been applied to the old connection while
+                # this one was being set up: only put it in service on the current keyspace
+                with self._lock:
+                    if self._keyspace == keyspace:
+                        self._connection = conn
+                        break
             if self.is_shutdown:
                 # the pool was shut down while the replacement was being opened
                 self._connection = None
@@ -594,8 +596,14 @@ class HostConnection(object):
             errors = [] if not error else [error]
             callback(self, errors)
 
-        self._keyspace = keyspace
-        self._connection.set_keyspace_async(keyspace, connection_finished_setting_keyspace)
+        with self._lock:
+            # _replace() puts a new connection in service under this lock
+            self._keyspace = keyspace
+            connection = self._connection
+        if not connection:
+            callback(self, [])
+            return
+        connection.set_keyspace_async(keyspace, connection_finished_setting_keyspace)
 
     def get_connections(self):
         c = self._connection
